@@ -1481,6 +1481,11 @@ const SCENARIOS: &[(&str, &[(&str, &[u8])], Option<(&str, u32, u32, &str)>)] = &
 		("d.bin", b"M"), ("c.asm", b".du8 0x11;\n"), ("sub/b.asm", b".dfile \"d.bin\";\n.include \"c.asm\";\n.dfile \"d.bin\";\n"), ("sub/d.bin", b"S"), ("sub/c.asm", b".du8 0x22;\n")], None),
 	("path-after-include", &[("main.asm", b".addr 0x100;\n.include \"sub/b.asm\";\n.dfile \"only_here.bin\";\n.include \"only_here.asm\";\n"),
 		("only_here.bin", b"M"), ("only_here.asm", b".du8 0x11;\n"), ("sub/b.asm", b".include \"deep/e.asm\";\n.dfile \"s.bin\";\n"), ("sub/s.bin", b"S"), ("sub/deep/e.asm", b".dfile \"s.bin\";\nNOP;\n"), ("sub/deep/s.bin", b"D")], None),
+	// `.addr` to an address that holds output is refused also when it is the cursor of the region being written (gap filled exactly; top)
+	("occupied-cursor", &[("main.asm", b".addr 0x110;\n.du32 1;\n.addr 0x108;\n.du32 2;\n.du32 3;\n.addr 0x110;\n")], Some(("main.asm", 6, 1, "occupied.00000110"))),
+	("occupied-cursor", &[("main.asm", b".addr 0x110;\nNOP;\n.addr 0x108;\n.include \"fill.asm\";\n  .addr 0x110;\nx:\n"), ("fill.asm", b".du32 2;\n.du32 3;\n")], Some(("main.asm", 5, 3, "occupied.00000110"))),
+	("occupied-cursor", &[("main.asm", b".addr 0xFFFFFFFE;\n.du16 1;\n.addr 0xFFFFFFFF;\n")], Some(("main.asm", 3, 1, "occupied.ffffffff"))),
+	("occupied-cursor", &[("main.asm", b".addr 0xFFFFFFFF;\n.du8 1;\n.addr 0xFFFFFFFF;\n.addr 0x100;\nNOP;\n")], Some(("main.asm", 3, 1, "occupied.ffffffff"))),
 	// a name published twice across an include: the included file re-publishes a name the includer already owns
 	("duplicate-across-include", &[("main.asm", b".addr 0x100;\n.const x9, 1;\n.include \"c.asm\";\n.du8 x9;\n"), ("c.asm", b".const x9, 2;\n.global x9;\n")], Some(("c.asm", 2, 1, "duplicate"))),
 	("duplicate-across-include", &[("main.asm", b".addr 0x100;\n.const x9, 1;\n.include \"c.asm\";\n.du8 x9;\n"), ("c.asm", b".const x9, 2;\n.export x9;\n")], Some(("c.asm", 2, 1, "duplicate"))),
@@ -1864,6 +1869,102 @@ pub fn check_procfile(cx: &mut Cx, room: u32, dir: &std::path::Path)
 	}
 }
 
+/// NESTED sums over names that are only DECLARED when the statement is read (`nested <seed>`): two or three names declared `.global`
+/// and defined below (constants and a label), two or three literals, nested through `+` and `-` on both sides, in `.du*` values and
+/// instruction operands (immediates and `[Rn + offset]` of LDR/STR/LDRB/STRB/LDRH/STRH); the same statements once more behind the
+/// definitions. Expected value from the reference evaluator; every statement has the same bytes before and after the definitions.
+fn check_nested(cx: &mut Cx, seed: u64, dir: &std::path::Path)
+{
+	let mut rng = Rng::new(seed);
+	let input = format!("nested {seed}");
+	let base = 0x2000_0000u32 + 4 * rng.below(32) as u32;
+	let names = ["start", "end", "tbl"];
+	let nstmt = 2 + rng.below(4) as usize;
+	fn gen(rng: &mut Rng, depth: u32, names: &[&str]) -> E
+	{
+		if depth == 0 || rng.chance(1, 4) {return if rng.chance(1, 2) {E::Name(rng.pick(names).to_string())} else {E::Num(rng.below(40) as i64)};}
+		let op = if rng.chance(1, 2) {"+"} else {"-"};
+		E::Bin(op, Box::new(gen(rng, depth - 1, names)), Box::new(gen(rng, depth - 1, names)))
+	}
+	// statement kinds: (width in bytes, range of the value, text maker)
+	#[derive(Clone, Copy)]
+	enum K {Du(u32), Movs, Mem(&'static str, i64, i64)}
+	let kinds = [K::Du(4), K::Du(4), K::Du(2), K::Du(1), K::Movs, K::Mem("LDR", 124, 4), K::Mem("STR", 124, 4), K::Mem("LDRB", 31, 1), K::Mem("STRB", 31, 1), K::Mem("LDRH", 62, 2), K::Mem("STRH", 62, 2)];
+	let mut stmts: Vec<(K, E)> = Vec::new();
+	for _ in 0..nstmt
+	{
+		let e = loop
+		{
+			let depth = 2 + rng.below(3) as u32;
+			let e = gen(&mut rng, depth, &names);
+			let mut ns = Vec::new();
+			e.names(&mut ns);
+			if ns.len() >= 2 {break e;}
+		};
+		stmts.push((*rng.pick(&kinds), e));
+	}
+	// layout: the waiting statements, the definitions, the same statements again
+	let size = |k: &K| match k {K::Du(w) => *w, _ => 2};
+	let first_len: u32 = stmts.iter().map(|(k, _)| size(k)).sum();
+	let mut env: HashMap<String, i64> = HashMap::new();
+	env.insert("start".to_owned(), 0x100 + rng.below(0x400) as i64);
+	env.insert("end".to_owned(), (base + first_len) as i64);        // a label behind the waiting statements
+	env.insert("tbl".to_owned(), 0x80 + rng.below(0x80) as i64);
+	let mut text = format!(".addr 0x{base:X};\n.global start;\n.global end;\n.global tbl;\n");
+	let mut want: Vec<u8> = Vec::new();
+	let mut rendered: Vec<String> = Vec::new();
+	for (k, e) in &stmts
+	{
+		let v = e.eval(&env).expect("sums of small numbers");
+		let (lo, hi, step) = match k {K::Du(w) => (0i64, (1i64 << (8 * w)) - 1, 1), K::Movs => (0, 255, 1), K::Mem(_, hi, st) => (0, *hi, *st)};
+		// bring the value into the statement's range with one more literal (part of what gets merged)
+		let target = if v >= lo && v <= hi && v % step == 0 && rng.chance(1, 2) {v} else {lo + step * rng.below(((hi - lo) / step + 1).min(1 << 31) as u64) as i64};
+		let full = if target == v {e.clone()} else if rng.chance(1, 2) {E::Bin("+", Box::new(E::Num(target - v)), Box::new(e.clone()))} else {E::Bin("-", Box::new(e.clone()), Box::new(E::Num(v - target)))};
+		let et = full.render(&mut rng);
+		let (line, bytes): (String, Vec<u8>) = match k
+		{
+			K::Du(w) => (format!(".du{} {et};", 8 * w), (target as u64).to_le_bytes()[..*w as usize].to_vec()),
+			K::Movs => (format!("MOVS R3, {et};"), vec![target as u8, 0x23]),
+			K::Mem(mn, _, st) =>
+			{
+				let op: u16 = match *mn {"STR" => 0x6000, "LDR" => 0x6800, "STRB" => 0x7000, "LDRB" => 0x7800, "STRH" => 0x8000, _ => 0x8800};
+				let h = op | ((target / st) as u16) << 6 | 1 << 3 | 2;
+				(if rng.chance(1, 2) {format!("{mn} R2, [R1 + {et}];")} else {format!("{mn} R2, [{et} + R1];")}, h.to_le_bytes().to_vec())
+			},
+		};
+		text.push_str(&line);
+		text.push('\n');
+		want.extend_from_slice(&bytes);
+		rendered.push(line);
+	}
+	text.push_str(&format!("end:\n.const start, {};\n.const tbl, {};\n", env["start"], env["tbl"]));
+	let once = want.clone();
+	for l in &rendered {text.push_str(l); text.push('\n');}
+	want.extend_from_slice(&once);
+	let project = Project::single(text.as_bytes());
+	project.write(dir);
+	cx.report.hit("nested sums over declared names: program");
+	match run_real(dir)
+	{
+		Err(p) => {cx.report.case(Some("panic")); cx.report.oracle_fail(input, format!("panic: {p}"));},
+		Ok(o) =>
+		{
+			let got: Vec<u8> = o.image.iter().filter(|(a, _)| **a >= base).map(|(_, b)| *b).collect();
+			cx.report.case(Some(&hex(&got)));
+			if !(o.assemble_ok && o.close_err.is_none() && o.finalize && o.errors.is_empty())
+			{
+				cx.report.oracle_fail(input.clone(), format!("a valid program is refused: {:?}; program {text:?}", o.errors.iter().take(3).collect::<Vec<_>>()));
+			}
+			else if got != want
+			{
+				let k = got.iter().zip(want.iter()).position(|(a, b)| a != b).unwrap_or(got.len().min(want.len()));
+				cx.report.oracle_fail(input.clone(), format!("byte {k}: the image holds {}, the values of the expressions give {} (the second half repeats the statements behind the definitions); program {text:?}", hex(&got), hex(&want)));
+			}
+		},
+	}
+	check_asm_model(cx, &project, dir);
+}
+
 /// `.include` applied through `DirectiveList::process` on a fresh `Context` (no current file: the path is taken as it is
 /// when absolute): must behave as the same include written in a main file — same image, same success
 fn include_without_current_file(cx: &mut Cx, dir: &std::path::Path)
@@ -2060,6 +2161,7 @@ pub fn run(id: &str, cx: &mut Cx)
 			self_include(cx, &dir, rest.trim().parse().unwrap_or(1));
 			return;
 		}
+		if let Some(seed) = input.strip_prefix("nested ").and_then(|x| x.trim().parse::<u64>().ok()) {check_nested(cx, seed, &dir); return;}
 		if let Some(k) = input.strip_prefix("large ").and_then(|x| x.trim().parse::<usize>().ok()) {check_large(cx, id, k, &dir); return;}
 		if let Some(seed) = input.strip_prefix("dulist ").and_then(|x| x.trim().parse::<u64>().ok()) {check_du_list(cx, seed, &dir); return;}
 		if let Some(room) = input.strip_prefix("procfile ").and_then(|x| x.trim().parse::<u32>().ok()) {check_procfile(cx, room, &dir); return;}
@@ -2132,6 +2234,7 @@ non-trivial = non-empty image; distinct = distinct images".to_owned();
 			for _ in 0..if cx.thorough() {4000} else {400} {let seed = cx.rng.next(); check_shadow(cx, seed, &dir);}
 			for k in 0..large_programs().len() {check_large(cx, id, k, &dir);}
 			for _ in 0..if cx.thorough() {3000} else {300} {let seed = cx.rng.next(); check_du_list(cx, seed, &dir);}
+			for _ in 0..if cx.thorough() {10_000} else {800} {let seed = cx.rng.next(); check_nested(cx, seed, &dir);}
 			let n = if cx.thorough() {100_000} else {12_000};
 			let mut made = 0;
 			let mut tries = 0;
